@@ -261,7 +261,7 @@ func init() {
 		Old: "\t\tmapPaths, err := structTagToLibPaths(ftype, parent, preferShadowPath)\n\t\tif err != nil {\n\t\t\terrs.Add(fmt.Errorf(\"%v->%s: %v\", parent, ftype.Name, err))\n\t\t\tcontinue\n\t\t}\n\n\t\tswitch fval.Kind() {\n\t\tcase reflect.Map:",
 		New: "\t\tmapPaths, err := structTagToLibPaths(ftype, parent, preferShadowPath)\n\t\tif err != nil {\n\t\t\terrs.Add(fmt.Errorf(\"%v->%s: %v\", parent, ftype.Name, err))\n\t\t\tcontinue\n\t\t}\n\t\tif fval.Kind() == reflect.Slice && fval.Len() == 0 {\n\t\t\tcontinue\n\t\t}\n\n\t\tswitch fval.Kind() {\n\t\tcase reflect.Map:", Expect: "findUpdatedLeaves:continue"})
 	addMutant(Mutant{Name: "c04-binary-reslice", Property: "C04", File: "ygot/struct_validation_map.go",
-		Old: "\t\tsrcVal := srcField.Elem()\n\t\tns := reflect.Zero(srcVal.Type())", New: "\t\tsrcVal := srcField.Elem()\n\t\tns := srcVal.Slice3(0, 0, srcVal.Len())", Expect: "copyInterfaceField:Set"})
+		Old: "\t\tns := reflect.MakeSlice(srcVal.Type(), 0, srcVal.Len())", New: "\t\tns := srcVal.Slice3(0, 0, srcVal.Len())", Expect: "copyInterfaceField"})
 	addMutant(Mutant{Name: "c05-unique-by-identity", Property: "C05", File: "ygot/struct_validation_map.go",
 		Old: "\t\t\tif reflect.DeepEqual(a.Index(i).Interface(), b.Index(j).Interface()) {", New: "\t\t\tif a.Index(i).Interface() == b.Index(j).Interface() {", Expect: "uniqueSlices:identity"})
 	addMutant(Mutant{Name: "c06-cache-key-flavourless", Property: "C06", File: "ytypes/string_type.go",
@@ -503,4 +503,11 @@ func init() {
 func init() {
 	addMutant(Mutant{Name: "c13-create-entry-on-empty-result", Property: "C13", File: "ytypes/node.go",
 		Old: "\tif len(matches) == 0 && !matchedEntry && args.modifyRoot {\n\t\tkey, err := insertAndGetKey(", New: "\tif len(matches) == 0 && (!matchedEntry || len(matches) == 0) && args.modifyRoot {\n\t\tkey, err := insertAndGetKey(", Expect: "retrieveNodeList:create#1"})
+}
+
+func init() {
+	addMutant(Mutant{Name: "c04-union-leaflist-members-shared", Property: "C04", File: "ygot/struct_validation_map.go",
+		Old: "\t\t\t\tnv := reflect.New(v.Type()).Elem()\n\t\t\t\tif err := copyInterfaceField(nv, v, fmt.Sprintf(\"%s[%v]\", accessPath, i), opts...); err != nil {\n\t\t\t\t\treturn err\n\t\t\t\t}\n\t\t\t\tv = nv\n", New: "\t\t\t\t_ = opts\n", Expect: "interface-elements-copied"})
+	addMutant(Mutant{Name: "c05-union-binary-copy-nil-for-empty", Property: "C05", File: "ygot/struct_validation_map.go",
+		Old: "\t\tns := reflect.MakeSlice(srcVal.Type(), 0, srcVal.Len())", New: "\t\tns := reflect.Zero(srcVal.Type())", Expect: "copyInterfaceField:binary-arm"})
 }
